@@ -47,7 +47,7 @@ EPS = 0.01
 
 def cases(seed, tier):
     rng = random.Random(f"C08:{seed}")
-    n = 520 if tier == "quick" else 22000
+    n = 1000 if tier == "quick" else 22000
     out = []
     for i in range(n):
         r = rng.random()
